@@ -79,16 +79,20 @@ type CallerSc struct {
 }
 
 type ClientSc struct {
-	Prop       string     `json:"prop"`
-	Enforce    bool       `json:"enforce"` // EnforceVersion(1.4): no negotiation exchange
-	Callers    []CallerSc `json:"callers"`
-	Behav      []ReqBehav `json:"behav,omitempty"`
-	Conns      []ConnSc   `json:"conns,omitempty"`
-	Chunk      int        `json:"chunk,omitempty"`
-	DataEOF    bool       `json:"data_eof,omitempty"`
-	Suffix     int        `json:"suffix,omitempty"`      // number of sequential fault-free calls at the end (recovery oracle)
-	FinalClose bool       `json:"final_close,omitempty"` // harness closes the client at the end (leak oracle)
-	Capacity   int        `json:"capacity,omitempty"`
+	Prop    string     `json:"prop"`
+	Enforce bool       `json:"enforce"` // EnforceVersion(1.4): no negotiation exchange
+	Callers []CallerSc `json:"callers"`
+	Behav   []ReqBehav `json:"behav,omitempty"`
+	Conns   []ConnSc   `json:"conns,omitempty"`
+	// HangUpServer: a server that answers every request and hangs up right after each reply, for the whole run
+	// (also in the fault-free suffix: it is reachable, it just does not keep connections), seen through a transport
+	// whose Write calls return late. No two consecutive calls of the suffix may both fail
+	HangUpServer bool `json:"hang_up_server,omitempty"`
+	Chunk        int  `json:"chunk,omitempty"`
+	DataEOF      bool `json:"data_eof,omitempty"`
+	Suffix       int  `json:"suffix,omitempty"`      // number of sequential fault-free calls at the end (recovery oracle)
+	FinalClose   bool `json:"final_close,omitempty"` // harness closes the client at the end (leak oracle)
+	Capacity     int  `json:"capacity,omitempty"`
 	// DiscoverMode: how the scripted server answers the discovery exchange: 0 conformant, 1 empty list
 	// (no common version: Dial must fail), 2 failed item (general failure)
 	DiscoverMode int `json:"discover_mode,omitempty"`
@@ -187,6 +191,9 @@ func newClientWorld(x *X, sc *ClientSc) *clientWorld {
 }
 
 func (w *clientWorld) behav() ReqBehav {
+	if w.sc.HangUpServer {
+		return ReqBehav{CloseAfter: true}
+	}
 	if w.quiet || len(w.sc.Behav) == 0 {
 		return ReqBehav{}
 	}
@@ -227,7 +234,7 @@ func (w *clientWorld) dialer(ctx context.Context) (net.Conn, error) {
 		}
 		return nil, simnet.ErrRefused
 	}
-	cep := simnet.EP{Chunk: w.sc.Chunk, DataEOF: w.sc.DataEOF, Plan: cs.Plan, Rates: cs.Rates, Capacity: w.sc.Capacity}
+	cep := simnet.EP{Chunk: w.sc.Chunk, DataEOF: w.sc.DataEOF, Plan: cs.Plan, Rates: cs.Rates, Capacity: w.sc.Capacity, WriteLate: w.sc.HangUpServer, WriteLateAlways: w.sc.HangUpServer}
 	sep := simnet.EP{Chunk: w.sc.Chunk, Capacity: w.sc.Capacity}
 	a, b := simnet.Pipe(w.s, fmt.Sprintf("k%d", i), cep, sep)
 	a.Quiet = func() bool { return w.quiet }
